@@ -235,3 +235,588 @@ Proof.
     destruct (take_name (a :: s)) as [n1 r1], (take_name (b :: s')) as [n2 r2]; simpl in *;
     (destruct (bytes_eqb_spec (nm ++ n1) (nm ++ n2)) as [E|E]; [apply app_inv_head in E; contradiction|reflexivity]).
 Qed.
+
+(* ---------- the abstraction relation ---------- *)
+Definition flat (e : mkey * N) : bytes * bytes * N := (fst (fst e), snd (fst e), snd e).
+
+(* the forest holds exactly the entries of the map (as a multiset), and the map has one entry per key *)
+Definition Rel (t : txn) (s : mstate) : Prop :=
+  Permutation (routes_of_txn t) (map flat s) /\ NoDup (map fst s).
+
+Lemma mkey_eqb_eq a b : mkey_eqb a b = true <-> a = b.
+Proof.
+  destruct a as [a1 a2], b as [b1 b2]. unfold mkey_eqb. simpl. rewrite andb_true_iff, !bytes_eqb_eq.
+  split; [intros [-> ->]; reflexivity|intros [= -> ->]; auto].
+Qed.
+
+Lemma mfind_some s k v : mfind s k = Some v -> In (k, v) s.
+Proof.
+  induction s as [|[k' v'] s IH]; simpl; [discriminate|].
+  destruct (mkey_eqb k k') eqn:E.
+  - intros [= <-]. apply mkey_eqb_eq in E. subst. left. reflexivity.
+  - intros H. right. auto.
+Qed.
+
+Lemma mfind_none s k : mfind s k = None <-> ~ In k (map fst s).
+Proof.
+  induction s as [|[k' v'] s IH]; simpl; [tauto|].
+  destruct (mkey_eqb k k') eqn:E.
+  - apply mkey_eqb_eq in E. subst. split; [discriminate|]. intros H. exfalso. apply H. left. reflexivity.
+  - rewrite IH. split; [|tauto]. intros H [H1|H1]; [|tauto]. subst.
+    assert (mkey_eqb k k = true) by (apply mkey_eqb_eq; reflexivity). congruence.
+Qed.
+
+Lemma perm_filter {A} (f : A -> bool) (l l' : list A) : Permutation l l' -> Permutation (filter f l) (filter f l').
+Proof.
+  intros H. induction H; simpl.
+  - reflexivity.
+  - destruct (f x); [constructor|]; assumption.
+  - destruct (f x), (f y); try reflexivity. apply perm_swap.
+  - etransitivity; eauto.
+Qed.
+
+Lemma flat_in (s : mstate) m p id : In (m, p, id) (map flat s) <-> In ((m, p), id) s.
+Proof.
+  rewrite in_map_iff. split.
+  - intros [[[m' p'] id'] [E H]]. unfold flat in E. simpl in E. injection E as -> -> ->. exact H.
+  - intros H. exists ((m, p), id). auto.
+Qed.
+
+Lemma mpats_in t m p : In p (mpats t m) <-> exists id, In (m, p, id) (routes_of_txn t).
+Proof.
+  unfold mpats. rewrite in_map_iff. split.
+  - intros [[[m' p'] id] [E H]]. simpl in E. subst p'. apply filter_In in H. destruct H as [H Hm].
+    simpl in Hm. apply bytes_eqb_eq in Hm. subst m'. eauto.
+  - intros [id H]. exists (m, p, id). split; [reflexivity|]. apply filter_In. split; [exact H|].
+    simpl. apply bytes_eqb_refl.
+Qed.
+
+Lemma keys_in (s : mstate) k : In k (map fst s) <-> exists v, In (k, v) s.
+Proof.
+  rewrite in_map_iff. split.
+  - intros [[k' v] [E H]]. simpl in E. subst. eauto.
+  - intros [v H]. exists (k, v). auto.
+Qed.
+
+Lemma mpats_rel t s m p : Rel t s -> (In p (mpats t m) <-> In (m, p) (map fst s)).
+Proof.
+  intros [Hp _]. rewrite mpats_in, keys_in. split; intros [id H]; exists id.
+  - apply flat_in. eapply Permutation_in; eauto.
+  - eapply Permutation_in; [symmetry; exact Hp|]. apply flat_in. exact H.
+Qed.
+
+Lemma conflicts_of_in s m p q :
+  In q (conflicts_of s m p) <-> In (m, q) (map fst s) /\ patterns_conflict p q = true.
+Proof.
+  unfold conflicts_of. rewrite in_map_iff. split.
+  - intros [[[m' q'] id] [E H]]. simpl in E. subst q'. apply filter_In in H. destruct H as [H Hc].
+    simpl in Hc. apply andb_true_iff in Hc. destruct Hc as [Hm Hc]. apply bytes_eqb_eq in Hm. subst m'.
+    split; [|exact Hc]. apply keys_in. eauto.
+  - intros [H Hc]. apply keys_in in H. destruct H as [id H]. exists ((m, q), id). split; [reflexivity|].
+    apply filter_In. split; [exact H|]. simpl. rewrite bytes_eqb_refl. exact Hc.
+Qed.
+
+Lemma no_elements {A} (l : list A) : (forall x, ~ In x l) -> l = [].
+Proof. destruct l as [|x l]; [reflexivity|]. intros H. exfalso. apply (H x). left. reflexivity. Qed.
+
+(* ---------- insert ---------- *)
+Theorem insert_refines t s m ri : WF_txn t -> Rel t s -> valid_rinfo ri ->
+  match insert t m ri, m_handle s true m (rpat (ri_route ri)) (rid (ri_route ri)) with
+  | ROk t', (s', MOk) => WF_txn t' /\ Rel t' s'
+  | RExist e, (s', MExist) => e = rpat (ri_route ri) /\ s' = s
+  | RConflict ps, (s', MConflict cs) => s' = s /\ (forall q, In q ps <-> In q cs)
+  | _, _ => False
+  end.
+Proof.
+  intros Hw Hrel Hv. pose proof (insert_tree_spec t m ri Hw Hv) as H. cbv zeta in H.
+  set (p := rpat (ri_route ri)) in *. set (id := rid (ri_route ri)) in *.
+  unfold m_handle. cbn [negb].
+  destruct (insert t m ri) as [t'|e|ps|].
+  - destruct H as [Hw' [Hperm Hap]]. rewrite Forall_forall in Hap.
+    assert (mfind s (m, p) = None) as ->.
+    { apply mfind_none. intros Hin. apply (mpats_rel t s m p Hrel) in Hin.
+      destruct (apart_no_conflict p p (Hap p Hin)) as [_ Hne]. congruence. }
+    assert (conflicts_of s m p = []) as ->.
+    { apply no_elements. intros q Hq. apply conflicts_of_in in Hq. destruct Hq as [Hin Hc].
+      apply (mpats_rel t s m q Hrel) in Hin. destruct (apart_no_conflict p q (Hap q Hin)) as [Hf _]. congruence. }
+    split; [exact Hw'|]. destruct Hrel as [Hp Hnd]. split.
+    + rewrite Hperm, Hp, map_app. simpl. apply Permutation_cons_append.
+    + rewrite map_app. simpl. apply (Permutation_NoDup (l := (m, p) :: map fst s)); [apply Permutation_cons_append|].
+      constructor; [|exact Hnd]. intros Hin. apply (mpats_rel t s m p (conj Hp Hnd)) in Hin.
+      destruct (apart_no_conflict p p (Hap p Hin)) as [_ Hne]. congruence.
+  - destruct H as [-> Hin]. apply (mpats_rel t s m p Hrel) in Hin.
+    destruct (mfind s (m, p)) eqn:E; [auto|]. apply mfind_none in E. contradiction.
+  - destruct H as [Hne [others [Hperm [Hcl Hap]]]]. rewrite Forall_forall in Hcl, Hap.
+    assert (forall q, In q (mpats t m) -> In q ps \/ In q others) as Hsplit.
+    { intros q Hq. apply in_app_or. eapply Permutation_in; eauto. }
+    assert (mfind s (m, p) = None) as ->.
+    { apply mfind_none. intros Hin. apply (mpats_rel t s m p Hrel) in Hin. destruct (Hsplit p Hin) as [Hq|Hq].
+      - destruct (clash_conflict p p (Hcl p Hq)) as [_ Hn]. congruence.
+      - destruct (apart_no_conflict p p (Hap p Hq)) as [_ Hn]. congruence. }
+    assert (forall q, In q ps <-> In q (conflicts_of s m p)) as Hiff.
+    { intros q. rewrite conflicts_of_in. split.
+      - intros Hq. split; [|apply (clash_conflict p q (Hcl q Hq))].
+        apply (mpats_rel t s m q Hrel). eapply Permutation_in; [symmetry; exact Hperm|]. apply in_or_app. auto.
+      - intros [Hin Hc]. apply (mpats_rel t s m q Hrel) in Hin. destruct (Hsplit q Hin) as [Hq|Hq]; [exact Hq|].
+        destruct (apart_no_conflict p q (Hap q Hq)) as [Hf _]. congruence. }
+    destruct (conflicts_of s m p) as [|c cs] eqn:Ec.
+    + destruct ps as [|q ps]; [congruence|]. apply (Hiff q). left. reflexivity.
+    + split; [reflexivity|exact Hiff].
+  - exact H.
+Qed.
+
+(* ---------- update ---------- *)
+Lemma mreplace_perm k id : forall s v, NoDup (map fst s) -> In (k, v) s ->
+  exists s0, Permutation s ((k, v) :: s0) /\ Permutation (mreplace s k id) ((k, id) :: s0) /\
+             map fst (mreplace s k id) = map fst s.
+Proof.
+  induction s as [|[k' v'] s IH]; intros v Hnd Hin; [destruct Hin|]. simpl in *.
+  inversion Hnd as [|? ? Hni Hnd']; subst. destruct (mkey_eqb k k') eqn:E.
+  - apply mkey_eqb_eq in E. subst k'. destruct Hin as [Hin|Hin].
+    + injection Hin as ->. exists s. simpl. auto.
+    + exfalso. apply Hni. apply keys_in. eauto.
+  - destruct Hin as [Hin|Hin].
+    + injection Hin as -> ->. assert (mkey_eqb k k = true) by (apply mkey_eqb_eq; reflexivity). congruence.
+    + destruct (IH v Hnd' Hin) as [s0 [H1 [H2 H3]]]. exists ((k', v') :: s0). simpl. repeat split.
+      * rewrite H1. apply perm_swap.
+      * rewrite H2. apply perm_swap.
+      * f_equal. exact H3.
+Qed.
+
+(* with one entry per key, the remainder of the map after removing a key is determined *)
+Lemma key_cancel (s0 : mstate) (m p : bytes) (v v' : N) (l : list (bytes * bytes * N)) :
+  ~ In (m, p) (map fst s0) -> Permutation ((m, p, v) :: map flat s0) ((m, p, v') :: l) ->
+  v = v' /\ Permutation (map flat s0) l.
+Proof.
+  intros Hni Hp.
+  assert (In (m, p, v') ((m, p, v) :: map flat s0)) as Hin
+    by (eapply Permutation_in; [symmetry; exact Hp|left; reflexivity]).
+  destruct Hin as [Hin|Hin].
+  - injection Hin as Hv. subst v'. split; [reflexivity|]. exact (Permutation_cons_inv Hp).
+  - exfalso. apply Hni. apply (proj1 (flat_in s0 m p v')) in Hin. apply keys_in. eauto.
+Qed.
+
+Theorem update_refines t s m ri : WF_txn t -> Rel t s -> rpat (ri_route ri) <> [] ->
+  match update t m ri, m_update s true m (rpat (ri_route ri)) (rid (ri_route ri)) with
+  | ROk t', (s', MOk) => WF_txn t' /\ Rel t' s'
+  | RNotFound, (s', MNotFound) => s' = s
+  | _, _ => False
+  end.
+Proof.
+  intros Hw Hrel Hne. pose proof (update_tree_spec t m ri Hw Hne) as H. cbv zeta in H.
+  set (p := rpat (ri_route ri)) in *. set (id := rid (ri_route ri)) in *.
+  unfold m_update. cbn [negb].
+  destruct (update t m ri) as [t'|e|ps|]; try contradiction.
+  - destruct H as [Hw' [old [l [Hp1 Hp2]]]]. destruct Hrel as [Hp Hnd].
+    assert (In (m, p) (map fst s)) as Hin.
+    { apply keys_in. exists old. apply flat_in. eapply Permutation_in; [exact Hp|].
+      eapply Permutation_in; [symmetry; exact Hp1|left; reflexivity]. }
+    destruct (mfind s (m, p)) as [v|] eqn:E; [|apply mfind_none in E; contradiction].
+    apply mfind_some in E. destruct (mreplace_perm (m, p) id s v Hnd E) as [s0 [H1 [H2 H3]]].
+    assert (~ In (m, p) (map fst s0)) as Hni.
+    { apply (Permutation_map fst) in H1. simpl in H1. apply (Permutation_NoDup H1) in Hnd.
+      inversion Hnd; assumption. }
+    assert (Permutation ((m, p, v) :: map flat s0) ((m, p, old) :: l)) as Hc.
+    { rewrite <- Hp1, Hp. apply (Permutation_map flat) in H1. symmetry. exact H1. }
+    destruct (key_cancel s0 m p v old l Hni Hc) as [_ Hl].
+    split; [exact Hw'|]. split.
+    + rewrite Hp2. apply (Permutation_map flat) in H2. rewrite H2. simpl. unfold flat at 2. simpl.
+      apply perm_skip. symmetry. exact Hl.
+    + rewrite H3. exact Hnd.
+  - destruct (mfind s (m, p)) as [v|] eqn:E; [|reflexivity].
+    apply mfind_some in E. apply H. apply (mpats_rel t s m p Hrel). apply keys_in. eauto.
+Qed.
+
+(* ---------- remove ---------- *)
+Lemma mremove_perm k : forall s v, NoDup (map fst s) -> In (k, v) s ->
+  Permutation s ((k, v) :: mremove s k) /\ ~ In k (map fst (mremove s k)) /\ NoDup (map fst (mremove s k)).
+Proof.
+  unfold mremove. induction s as [|[k' v'] s IH]; intros v Hnd Hin; [destruct Hin|]. simpl in *.
+  inversion Hnd as [|? ? Hni Hnd']; subst. destruct (mkey_eqb k k') eqn:E; simpl.
+  - apply mkey_eqb_eq in E. subst k'.
+    assert (filter (fun e => negb (mkey_eqb k (fst e))) s = s) as ->.
+    { apply filter_all_true. intros [k2 v2] H2. simpl. destruct (mkey_eqb k k2) eqn:E2; [|reflexivity].
+      apply mkey_eqb_eq in E2. subst. exfalso. apply Hni. apply keys_in. eauto. }
+    destruct Hin as [Hin|Hin].
+    + injection Hin as ->. auto.
+    + exfalso. apply Hni. apply keys_in. eauto.
+  - destruct Hin as [Hin|Hin].
+    + injection Hin as -> ->. assert (mkey_eqb k k = true) by (apply mkey_eqb_eq; reflexivity). congruence.
+    + destruct (IH v Hnd' Hin) as [H1 [H2 H3]]. repeat split.
+      * rewrite H1 at 1. apply perm_swap.
+      * intros [H|H]; [|contradiction]. subst.
+        assert (mkey_eqb k k = true) by (apply mkey_eqb_eq; reflexivity). congruence.
+      * constructor; [|exact H3]. intros H. apply Hni. apply in_map_iff in H. destruct H as [e [He H]].
+        apply filter_In in H. destruct H as [H _]. apply in_map_iff. eauto.
+Qed.
+
+Lemma m_delete_some s m p v : mfind s (m, p) = Some v -> m_delete s true m p = (mremove s (m, p), MOk, Some v).
+Proof. intros E. unfold m_delete. cbn [negb]. rewrite E. reflexivity. Qed.
+Lemma m_delete_none s m p : mfind s (m, p) = None -> m_delete s true m p = (s, MNotFound, None).
+Proof. intros E. unfold m_delete. cbn [negb]. rewrite E. reflexivity. Qed.
+
+Theorem remove_refines t s m p : WF_txn t -> Rel t s -> p <> [] ->
+  match remove t m p, m_delete s true m p with
+  | DOk t' r, (s', MOk, Some v) => WF_txn t' /\ Rel t' s' /\ rid r = v /\ rpat r = p
+  | DNotFound, (s', MNotFound, None) => s' = s
+  | _, _ => False
+  end.
+Proof.
+  intros Hw Hrel Hne. pose proof (remove_tree_spec t m p Hw Hne) as H.
+  destruct (remove t m p) as [t' r|].
+  - destruct H as [Hw' [Hrp Hp1]]. destruct Hrel as [Hp Hnd].
+    assert (In (m, p) (map fst s)) as Hin.
+    { apply keys_in. exists (rid r). apply flat_in. eapply Permutation_in; [exact Hp|].
+      eapply Permutation_in; [symmetry; exact Hp1|left; reflexivity]. }
+    destruct (mfind s (m, p)) as [v|] eqn:E; [|apply mfind_none in E; contradiction].
+    rewrite (m_delete_some s m p v E).
+    apply mfind_some in E. destruct (mremove_perm (m, p) s v Hnd E) as [H1 [H2 H3]].
+    assert (Permutation ((m, p, v) :: map flat (mremove s (m, p))) ((m, p, rid r) :: routes_of_txn t')) as Hc.
+    { rewrite <- Hp1, Hp. apply (Permutation_map flat) in H1. symmetry. exact H1. }
+    destruct (key_cancel _ m p v (rid r) _ H2 Hc) as [Hv Hl].
+    split; [exact Hw'|]. split; [split; [symmetry; exact Hl|exact H3]|]. auto.
+  - destruct (mfind s (m, p)) as [v|] eqn:E; [|rewrite (m_delete_none s m p E); reflexivity].
+    exfalso. apply mfind_some in E. apply H. apply (mpats_rel t s m p Hrel). apply keys_in. eauto.
+Qed.
+
+(* ---------- truncate ---------- *)
+Lemma map_flat_filter ms s :
+  map flat (filter (fun e => negb (existsb (bytes_eqb (fst (fst e))) ms)) s) = filter (not_in_methods ms) (map flat s).
+Proof.
+  induction s as [|e s IH]; [reflexivity|]. cbn [filter map].
+  change (not_in_methods ms (flat e)) with (negb (existsb (bytes_eqb (fst (fst e))) ms)).
+  destruct (negb (existsb (bytes_eqb (fst (fst e))) ms)); cbn [map]; rewrite IH; reflexivity.
+Qed.
+
+Lemma NoDup_map_filter {A B} (f : A -> B) (g : A -> bool) l : NoDup (map f l) -> NoDup (map f (filter g l)).
+Proof.
+  induction l as [|x l IH]; simpl; intros H; [constructor|]. inversion H; subst.
+  destruct (g x); simpl; [|auto]. constructor; [|auto]. intros Hin. apply H2.
+  apply in_map_iff in Hin. destruct Hin as [y [E Hy]]. apply filter_In in Hy. destruct Hy as [Hy _].
+  apply in_map_iff. eauto.
+Qed.
+
+Theorem truncate_refines t s ms : WF_txn t -> Rel t s ->
+  WF_txn (truncate t ms) /\ Rel (truncate t ms) (m_truncate s ms).
+Proof.
+  intros Hw [Hp Hnd]. destruct (truncate_tree_spec t ms Hw) as [Hw' Hr]. split; [exact Hw'|].
+  unfold Rel. rewrite Hr. unfold m_truncate. destruct ms as [|m more].
+  - split; [reflexivity|constructor].
+  - split.
+    + rewrite map_flat_filter. apply perm_filter. exact Hp.
+    + apply NoDup_map_filter. exact Hnd.
+Qed.
+
+(* ---------- histories with transactions ---------- *)
+Definition hop_ri (o : hop) : rinfo :=
+  {| ri_route := {| rpat := h_pat o; rid := h_rid o |}; ri_pslen := h_pslen o; ri_hostsplit := h_hostsplit o |}.
+
+(* the validation oracle of a history step is sound: an accepted pattern is a valid
+   pattern and the recorded hostSplit is the index of its first '/' (property C10) *)
+Definition hop_ok (o : hop) : Prop := h_valid o = true -> valid_rinfo (hop_ri o).
+
+Definition SRel (hs : hstate) (ss : sstate) : Prop :=
+  WF_txn (pub hs) /\ Rel (pub hs) (spub ss) /\
+  match cur hs, scur ss with
+  | None, None => True
+  | Some t, Some s => WF_txn t /\ Rel t s
+  | _, _ => False
+  end.
+
+Lemma SRel_visible hs ss : SRel hs ss -> WF_txn (visible hs) /\ Rel (visible hs) (svisible ss).
+Proof.
+  intros [H1 [H2 H3]]. unfold visible, svisible. destruct (cur hs), (scur ss); try contradiction; tauto.
+Qed.
+
+Lemma SRel_put hs ss t' s' : SRel hs ss -> WF_txn t' -> Rel t' s' -> SRel (put hs t') (sput ss s').
+Proof.
+  intros [H1 [H2 H3]] Hw Hr. unfold put, sput, SRel. destruct (cur hs), (scur ss); try contradiction; simpl; tauto.
+Qed.
+
+Lemma sput_same ss : sput ss (svisible ss) = ss.
+Proof. destruct ss as [p [c|]]; reflexivity. Qed.
+
+Lemma forallb_subset (a b : list bytes) : (forall q, In q a -> In q b) ->
+  forallb (fun p => existsb (bytes_eqb p) b) a = true.
+Proof. intros H. apply forallb_forall. intros q Hq. apply existsb_bytes_In. auto. Qed.
+
+Theorem step_refines hs ss o : SRel hs ss -> hop_ok o ->
+  match hstep hs o, sstep ss o with
+  | (hs', out, rm), (ss', mo, rm') => SRel hs' ss' /\ mout_matches mo out = true /\ rm = rm'
+  end.
+Proof.
+  intros HS Hok. destruct (SRel_visible hs ss HS) as [Hw Hrel].
+  unfold hstep, sstep. fold (hop_ri o).
+  destruct (h_kind o).
+  - (* Handle *)
+    destruct (valid_method_handle (h_method o)); cbn [negb orb andb];
+      [|unfold m_handle; cbn [negb]; rewrite sput_same; auto].
+    destruct (h_valid o) eqn:Ev; cbn [negb];
+      [|unfold m_handle; cbn [negb]; rewrite sput_same; auto].
+    pose proof (insert_refines (visible hs) (svisible ss) (h_method o) (hop_ri o) Hw Hrel (Hok Ev)) as H.
+    cbn [hop_ri ri_route rpat rid] in H.
+    destruct (insert (visible hs) (h_method o) (hop_ri o)) as [t'|e|ps|];
+      destruct (m_handle (svisible ss) true (h_method o) (h_pat o) (h_rid o)) as [s' [| | |cs|]]; try contradiction.
+    + destruct H as [Hw' Hr']. split; [apply SRel_put; auto|auto].
+    + destruct H as [_ ->]. rewrite sput_same. auto.
+    + destruct H as [-> Hiff]. rewrite sput_same. split; [exact HS|]. split; [|reflexivity].
+      simpl. apply andb_true_iff. split; apply forallb_subset; intros q Hq; apply Hiff; exact Hq.
+  - (* Update *)
+    destruct (Tree.is_nil (h_method o)); cbn [negb orb andb];
+      [unfold m_update; cbn [negb]; rewrite sput_same; auto|].
+    destruct (h_valid o) eqn:Ev; cbn [negb];
+      [|unfold m_update; cbn [negb]; rewrite sput_same; auto].
+    assert (rpat (ri_route (hop_ri o)) <> []) as Hne by (apply valid_nonempty; auto).
+    pose proof (update_refines (visible hs) (svisible ss) (h_method o) (hop_ri o) Hw Hrel Hne) as H.
+    cbn [hop_ri ri_route rpat rid] in H.
+    destruct (update (visible hs) (h_method o) (hop_ri o)) as [t'|e|ps|];
+      destruct (m_update (svisible ss) true (h_method o) (h_pat o) (h_rid o)) as [s' [| | |cs|]]; try contradiction.
+    + destruct H as [Hw' Hr']. split; [apply SRel_put; auto|auto].
+    + subst s'. rewrite sput_same. auto.
+  - (* Delete *)
+    destruct (Tree.is_nil (h_method o)); cbn [negb orb andb];
+      [unfold m_delete; cbn [negb]; rewrite sput_same; auto|].
+    destruct (h_valid o) eqn:Ev; cbn [negb];
+      [|unfold m_delete; cbn [negb]; rewrite sput_same; auto].
+    assert (h_pat o <> []) as Hne by (apply (valid_nonempty (hop_ri o)); auto).
+    pose proof (remove_refines (visible hs) (svisible ss) (h_method o) (h_pat o) Hw Hrel Hne) as H.
+    destruct (remove (visible hs) (h_method o) (h_pat o)) as [t' r|];
+      destruct (m_delete (svisible ss) true (h_method o) (h_pat o)) as [[s' [| | |cs|]] [v|]]; try contradiction.
+    + destruct H as [Hw' [Hr' [Hv _]]]. split; [apply SRel_put; auto|]. split; [reflexivity|congruence].
+    + subst s'. rewrite sput_same. auto.
+  - (* Truncate *)
+    destruct (truncate_refines (visible hs) (svisible ss) (h_methods o) Hw Hrel) as [Hw' Hr'].
+    split; [apply SRel_put; auto|auto].
+  - (* Begin *)
+    destruct HS as [H1 [H2 H3]]. split; [|auto]. unfold SRel. simpl. tauto.
+  - (* Commit *)
+    split; [|auto]. destruct HS as [H1 [H2 H3]]. unfold SRel.
+    destruct (cur hs) eqn:E1, (scur ss) eqn:E2; simpl in *; rewrite ?E1, ?E2; try contradiction; tauto.
+  - (* Abort *)
+    destruct HS as [H1 [H2 H3]]. split; [|auto]. unfold SRel. simpl. tauto.
+Qed.
+
+Definition sinit : sstate := {| spub := []; scur := None |}.
+
+Lemma SRel_init : SRel init_hstate sinit.
+Proof.
+  unfold SRel. simpl. split; [exact WF_empty|]. split; [|exact I]. split; [reflexivity|constructor].
+Qed.
+
+(* every step of every history: same outcome (conflict lists as sets), same removed
+   route, same visible contents, Len = cardinality, and a well-formed forest *)
+Fixpoint hist_ok (hs : hstate) (ss : sstate) (ops : list hop) : Prop :=
+  match ops with
+  | [] => True
+  | o :: r =>
+    match hstep hs o, sstep ss o with
+    | (hs', out, rm), (ss', mo, rm') =>
+        mout_matches mo out = true /\ rm = rm' /\
+        WF_txn (visible hs') /\
+        Permutation (all_of (visible hs')) (map flat (svisible ss')) /\
+        t_size (visible hs') = Z.of_nat (List.length (svisible ss')) /\
+        hist_ok hs' ss' r
+    end
+  end.
+
+Lemma hist_ok_from ops : Forall hop_ok ops -> forall hs ss, SRel hs ss -> hist_ok hs ss ops.
+Proof.
+  induction ops as [|o r IH]; intros Hok hs ss HS; [exact I|].
+  inversion Hok as [|? ? Ho Hr]; subst. cbn [hist_ok].
+  pose proof (step_refines hs ss o HS Ho) as H.
+  destruct (hstep hs o) as [[hs' out] rm]. destruct (sstep ss o) as [[ss' mo] rm'].
+  destruct H as [HS' [Hm Hrm]]. destruct (SRel_visible hs' ss' HS') as [Hw' [Hp' Hnd']].
+  split; [exact Hm|]. split; [exact Hrm|]. split; [exact Hw'|]. split; [|split].
+  - rewrite (all_of_routes _ Hw'). exact Hp'.
+  - destruct Hw' as [_ Hsz]. rewrite Hsz, (Permutation_length Hp'), map_length. reflexivity.
+  - apply IH; assumption.
+Qed.
+
+Theorem C02_refines_map_thm ops : Forall hop_ok ops -> hist_ok init_hstate sinit ops.
+Proof. intros H. apply hist_ok_from; [exact H|exact SRel_init]. Qed.
+
+(* reachable states are well formed: the published forest and the open transaction *)
+Definition hrun_state (hs : hstate) (ops : list hop) : hstate :=
+  fold_left (fun s o => fst (fst (hstep s o))) ops hs.
+Definition srun_state (ss : sstate) (ops : list hop) : sstate :=
+  fold_left (fun s o => fst (fst (sstep s o))) ops ss.
+
+Lemma SRel_run ops : Forall hop_ok ops -> forall hs ss, SRel hs ss -> SRel (hrun_state hs ops) (srun_state ss ops).
+Proof.
+  induction ops as [|o r IH]; intros Hok hs ss HS; [exact HS|].
+  inversion Hok as [|? ? Ho Hr]; subst. simpl.
+  pose proof (step_refines hs ss o HS Ho) as H.
+  destruct (hstep hs o) as [[hs' out] rm]. destruct (sstep ss o) as [[ss' mo] rm'].
+  apply IH; [exact Hr|]. apply H.
+Qed.
+
+Theorem WF_reachable_thm ops : Forall hop_ok ops ->
+  WF_txn (pub (hrun_state init_hstate ops)) /\
+  (forall t, cur (hrun_state init_hstate ops) = Some t -> WF_txn t).
+Proof.
+  intros Hok. destruct (SRel_run ops Hok _ _ SRel_init) as [H1 [_ H3]]. split; [exact H1|].
+  intros t E. rewrite E in H3. destruct (scur (srun_state sinit ops)); [tauto|contradiction].
+Qed.
+
+(* ---------- the outcome of Handle, in "iff" form ---------- *)
+Corollary insert_ok_iff t s m ri : WF_txn t -> Rel t s -> valid_rinfo ri ->
+  ((exists t', insert t m ri = ROk t') <->
+   snd (m_handle s true m (rpat (ri_route ri)) (rid (ri_route ri))) = MOk).
+Proof.
+  intros Hw Hr Hv. pose proof (insert_refines t s m ri Hw Hr Hv) as H.
+  destruct (insert t m ri) as [t'|e|ps|];
+    destruct (m_handle s true m (rpat (ri_route ri)) (rid (ri_route ri))) as [s' [| | |cs|]];
+    try contradiction; simpl; split; try discriminate; eauto; intros [x Hx]; discriminate.
+Qed.
+
+Corollary insert_exist_iff t s m ri : WF_txn t -> Rel t s -> valid_rinfo ri ->
+  ((exists e, insert t m ri = RExist e) <-> mfind s (m, rpat (ri_route ri)) <> None).
+Proof.
+  intros Hw Hr Hv. pose proof (insert_refines t s m ri Hw Hr Hv) as H. unfold m_handle in H. cbn [negb] in H.
+  destruct (mfind s (m, rpat (ri_route ri))) as [v|].
+  - destruct (insert t m ri) as [t'|e|ps|]; try contradiction. split; [discriminate|eauto].
+  - split; [|congruence]. intros [e He]. rewrite He in H. destruct (conflicts_of s m (rpat (ri_route ri))); contradiction.
+Qed.
+
+Corollary insert_conflict_iff t s m ri : WF_txn t -> Rel t s -> valid_rinfo ri ->
+  ((exists ps, insert t m ri = RConflict ps) <->
+   (mfind s (m, rpat (ri_route ri)) = None /\ conflicts_of s m (rpat (ri_route ri)) <> [])) /\
+  (forall ps, insert t m ri = RConflict ps ->
+     forall q, In q ps <-> In q (conflicts_of s m (rpat (ri_route ri)))).
+Proof.
+  intros Hw Hr Hv. pose proof (insert_refines t s m ri Hw Hr Hv) as H. unfold m_handle in H. cbn [negb] in H.
+  destruct (mfind s (m, rpat (ri_route ri))) as [v|].
+  - destruct (insert t m ri) as [t'|e|ps|]; try contradiction. split.
+    + split; [intros [x Hx]; discriminate|intros [Hx _]; discriminate].
+    + intros ps Hps. discriminate.
+  - destruct (conflicts_of s m (rpat (ri_route ri))) as [|c cs] eqn:Ec.
+    + destruct (insert t m ri) as [t'|e|ps|]; try contradiction. split.
+      * split; [intros [x Hx]; discriminate|intros [_ Hx]; congruence].
+      * intros ps Hps. discriminate.
+    + destruct (insert t m ri) as [t'|e|ps|]; try contradiction. destruct H as [_ Hiff]. split.
+      * split; [intros _; split; [reflexivity|discriminate]|eauto].
+      * intros ps' [= <-]. exact Hiff.
+Qed.
+
+(* ---------- a concrete history (non-vacuity of the hypotheses) ---------- *)
+Definition dummy_obs : hobs :=
+  {| o_out := OutOk; o_removed := None; o_tree := []; o_size := 0; o_maxp := 0; o_depth := 0; o_all := []; o_len := 0 |}.
+Definition mkop (k : opk) (m p : string) (id : N) (ms : list bytes) : hop :=
+  {| h_kind := k; h_method := S2B m; h_pat := S2B p; h_valid := valid_patternb (S2B p);
+     h_pslen := count_wildcards (tokenize (S2B p));
+     h_hostsplit := match index_byte (S2B p) "/" with Some i => i | None => 0 end;
+     h_rid := id; h_methods := ms; h_obs := dummy_obs |}.
+
+Definition ex_history : list hop :=
+  [ mkop KHandle "GET" "/foo/{id}" 1 []; mkop KHandle "GET" "/foo/{name}" 2 [];      (* conflict *)
+    mkop KHandle "GET" "a.com/x" 3 []; mkop KBegin "" "" 0 [];
+    mkop KHandle "PURGE" "/c/*{k}" 4 []; mkop KHandle "GET" "/foo/{id}/x" 5 [];
+    mkop KDelete "GET" "/foo/{id}" 0 []; mkop KAbort "" "" 0 [];
+    mkop KHandle "GET" "{sub}.a.com/" 6 []; mkop KUpdate "GET" "a.com/x" 7 [];
+    mkop KHandle "GET" "/bad/{x" 8 [];                                                 (* invalid *)
+    mkop KBegin "" "" 0 []; mkop KDelete "GET" "a.com/x" 0 []; mkop KTruncate "" "" 0 [S2B "POST"];
+    mkop KCommit "" "" 0 []; mkop KHandle "GET" "/foo/{id}" 9 [] ].                    (* exists *)
+
+Example ex_history_ok : Forall hop_ok ex_history.
+Proof.
+  unfold ex_history. repeat (constructor; [intros Hv; vm_compute in Hv; try discriminate; split; reflexivity|]).
+  constructor.
+Qed.
+
+Example ex_history_outcomes :
+  map (fun x => snd (fst x))
+      (snd (fold_left (fun acc o => let '(s, l) := acc in let r := hstep s o in (fst (fst r), l ++ [r]))
+                      ex_history (init_hstate, [])))
+  = [OutOk; OutConflict [S2B "/foo/{id}"]; OutOk; OutOk; OutOk; OutOk; OutOk; OutOk; OutOk; OutOk; OutInvalid;
+     OutOk; OutOk; OutOk; OutOk; OutExist].
+Proof. vm_compute. reflexivity. Qed.
+
+(* ---------- iteration order (bonus): DFS pre-order = byte-lexicographic pattern order ---------- *)
+Definition blt (a b : bytes) : Prop := bytes_ltb a b = true.
+
+Lemma bytes_ltb_prefix u k : k <> [] -> bytes_ltb u (u ++ k) = true.
+Proof.
+  intros Hk. induction u as [|x u IH]; simpl.
+  - destruct k; [congruence|reflexivity].
+  - rewrite Nat.ltb_irrefl. exact IH.
+Qed.
+
+Lemma bytes_ltb_diverge u a s b s' : nat_of_ascii a < nat_of_ascii b -> bytes_ltb (u ++ a :: s) (u ++ b :: s') = true.
+Proof.
+  intros H. induction u as [|x u IH]; simpl.
+  - apply Nat.ltb_lt in H. rewrite H. reflexivity.
+  - rewrite Nat.ltb_irrefl. exact IH.
+Qed.
+
+Lemma StronglySorted_app {A} (R : A -> A -> Prop) l1 l2 :
+  StronglySorted R l1 -> StronglySorted R l2 -> (forall x y, In x l1 -> In y l2 -> R x y) ->
+  StronglySorted R (l1 ++ l2).
+Proof.
+  induction l1 as [|x l1 IH]; simpl; intros H1 H2 Hc; [exact H2|].
+  inversion H1 as [|? ? Ha Hb]; subst. constructor.
+  - apply IH; auto.
+  - apply Forall_app. split; [exact Hb|]. apply Forall_forall. intros y Hy. apply Hc; auto.
+Qed.
+
+Lemma children_routes_sorted : forall ch pre, sorted_fb ch -> Forall (WF_node pre) ch ->
+  Forall (fun c => StronglySorted blt (map rpat (rlist c))) ch ->
+  StronglySorted blt (map rpat (flat_map rlist ch)).
+Proof.
+  induction ch as [|c ch IH]; intros pre Hs Hw Hr; [constructor|].
+  inversion Hs as [|? ? Hs' Hlt]; subst. inversion Hw as [|? ? Hwc Hw']; subst. inversion Hr as [|? ? Hrc Hr']; subst.
+  simpl. rewrite map_app. apply StronglySorted_app; [exact Hrc|eapply IH; eauto|].
+  intros x y Hx Hy. apply in_map_iff in Hx, Hy. destruct Hx as [r1 [<- Hx]], Hy as [r2 [<- Hy]].
+  destruct (WF_rlist_pat c pre r1 Hwc Hx) as [k1 [E1 _]].
+  destruct (WF_children_pat ch pre r2 Hw' Hy) as [c2 [k2 [Hc2 [_ [Hne2 [E2 _]]]]]].
+  rewrite Forall_forall in Hlt. specialize (Hlt c2 Hc2). unfold fb in Hlt.
+  pose proof (WF_node_key_ne _ _ Hwc) as Hne1.
+  destruct (nkey c) as [|a s1]; [congruence|]. destruct (nkey c2) as [|b s2]; [congruence|].
+  unfold blt. rewrite E1, E2, <- !app_assoc. simpl. apply bytes_ltb_diverge. exact Hlt.
+Qed.
+
+Lemma rlist_sorted : forall n pre, WF_node pre n -> StronglySorted blt (map rpat (rlist n)).
+Proof.
+  induction n as [k r ch IH] using node_ind2. intros pre Hw.
+  inversion Hw as [? ? ? ? H1 H2 H3 H4 H5 H6 H7]; subst. cbn [rlist]. rewrite map_app.
+  assert (StronglySorted blt (map rpat (flat_map rlist ch))) as Hch.
+  { apply (children_routes_sorted ch (pre ++ k)); auto.
+    rewrite Forall_forall in *. intros c Hc. apply (IH c Hc (pre ++ k)). auto. }
+  apply StronglySorted_app; [destruct r; repeat constructor|exact Hch|].
+  intros x y Hx Hy. destruct r as [rt|]; [|destruct Hx]. destruct Hx as [<-|[]].
+  destruct (H5 rt eq_refl) as [E _]. apply in_map_iff in Hy. destruct Hy as [r2 [<- Hy]].
+  destruct (WF_children_pat ch (pre ++ k) r2 H7 Hy) as [c2 [k2 [_ [_ [Hne2 [E2 _]]]]]].
+  unfold blt. rewrite E, E2. apply bytes_ltb_prefix. intros E0. apply app_eq_nil in E0. tauto.
+Qed.
+
+(* Iter().All(): the roots in slice order; within one method the patterns strictly increase *)
+Theorem iter_sorted_thm t : WF_txn t ->
+  all_of t = flat_map routes_of_root (t_roots t) /\
+  Forall (fun root => map (fun e => snd (fst e)) (routes_of_root root) = map rpat (rlist root) /\
+                      StronglySorted blt (map rpat (rlist root))) (t_roots t).
+Proof.
+  intros Hw. split; [exact (all_of_routes t Hw)|]. destruct Hw as [[_ [_ [_ Hr]]] _].
+  eapply Forall_impl; [|exact Hr]. intros root [Hn [Hs Hf]]. split.
+  - unfold routes_of_root. rewrite map_map. reflexivity.
+  - rewrite (rlist_root_children root Hn). apply (children_routes_sorted _ []); auto.
+    rewrite Forall_forall in *. intros c Hc. eapply rlist_sorted; eauto.
+Qed.
+
+(* ---------- evaluable forms for the correspondence check ---------- *)
+(* the hypothesis of C02_refines_map, as a boolean on a recorded step *)
+Definition hop_okb (o : hop) : bool :=
+  negb (h_valid o) ||
+  (valid_patternb (h_pat o) && opt_eqb Nat.eqb (index_byte (h_pat o) "/") (Some (h_hostsplit o))).
+(* the forest dumped from the implementation after a step is well formed *)
+Definition obs_wfb (o : hop) : bool :=
+  wf_txnb {| t_roots := o_tree (h_obs o); t_size := o_size (h_obs o);
+             t_maxparams := o_maxp (h_obs o); t_depth := o_depth (h_obs o) |}.
+
+Lemma hop_okb_ok o : hop_okb o = true -> hop_ok o.
+Proof.
+  unfold hop_okb, hop_ok. intros H Hv. rewrite Hv in H. simpl in H. apply andb_true_iff in H.
+  destruct H as [H1 H2]. split; [exact H1|]. simpl.
+  destruct (index_byte (h_pat o) "/") as [i|]; [|discriminate]. simpl in H2. apply Nat.eqb_eq in H2. congruence.
+Qed.
+
+Lemma hops_okb_ok ops : forallb hop_okb ops = true -> Forall hop_ok ops.
+Proof. intros H. apply Forall_forall. intros o Ho. apply hop_okb_ok. rewrite forallb_forall in H. auto. Qed.
